@@ -1851,6 +1851,9 @@ def run(ctx):
         "wpilib.Timer and the simulated DriverStation/FPGA clock are modelled (dict with overwrite, integer "
         "microseconds) and validated only by the correspondence")
     ctx.prove()
+    # the lifecycle methods of the CURRENT source, translated again and proved equal to the model (fail-closed)
+    from . import c14_translate
+    c14_translate.obligation(ctx)
     base = os.path.join(ctx.work, "pk")
     total = 400 if ctx.tier == "quick" else 6000
     jobs = 8 if ctx.tier == "quick" else 16
